@@ -313,7 +313,7 @@ fn rand_text(rng: &mut Rng) -> String {
 }
 
 /// the strings of the crate's own unit tests and of the spec's comments
-const FIXED: [&str; 64] = [
+const FIXED: [&str; 78] = [
     "", " ", "cap_chown", "+eip", "-eip", "cap_chown+-p", "cap_chown=-p", "cap_chown+y", "cap_noexist+p", "cap_chown=p",
     "cap_chown+p", "cap_chown+ie", "=e cap_chown-e", "=e", "all=e", "=e +p", "=e -p", "cap_chown=e +p", "=", "cap_chown+",
     "cap_kill=e-", "all,cap_chown=e", "cap_kill,ALL+p", ",=e", "cap_chown,=e", "cap_chown,,cap_kill=e", "Cap_Chown=e",
@@ -325,6 +325,9 @@ const FIXED: [&str; 64] = [
     // … operators / flags / commas that are not the ASCII characters …
     "cap_chown\u{ff1d}e", "cap_chown=\u{435}", "cap_chown=e\u{131}", "cap_chown\u{ff0c}cap_kill=e",
     // … White_Space beyond ASCII as separator / padding, and blanks that are not White_Space
+    // numbers are not capability names (libcap's cap_from_name accepts them, this grammar names them nowhere; seed C17-9:
+    // numeric capabilities below 64 accepted and rendered through CAPS[n], 41 entries)
+    "45=p", "0=e", "40+p", "41=ep", "63=p", "64=p", "cap_chown,45=p", "7,8=ep", "007=e", "4294967296=e", "-1=e", "1e1=p", "0x10=e", "cap_45=e",
     "=e\u{a0}=p", "cap_chown=e\u{3000}", "\u{85}=e", "\u{2003}", "=e\u{a0}+p", "=e\u{200b}=p", "\u{feff}=e",
 ];
 
